@@ -184,6 +184,17 @@ func c17Search(r *rand.Rand, bin, dir string, id int) c17Case {
 		cmds[0].Description = "desc \x1b]0;title\x07 " + cmds[0].Description
 		c.DBHasESC = true
 	}
+	if r.Intn(3) == 0 { // wide text: more bytes than characters (table columns are cut by width)
+		wide := []string{" 备份文件压缩归档工具命令行参数说明文档示例", " резервное копирование каталога архив", " 😀😀😀😀😀😀😀😀😀😀😀😀😀😀", " ééééééééééééééééééééééééééééééééééééééééééééééééééé"}
+		for i := range cmds {
+			if r.Intn(2) == 0 {
+				cmds[i].Command += wide[r.Intn(len(wide))]
+			}
+			if r.Intn(4) == 0 {
+				cmds[i].Niche += wide[r.Intn(len(wide))]
+			}
+		}
+	}
 	dbfile := filepath.Join(dir, fmt.Sprintf("db%d.yml", id))
 	data, err := marshalCommands(cmds)
 	if err != nil {
